@@ -617,4 +617,5 @@ func genC16(c *ctx) {
 			OracleFail: oracle,
 		})
 	}
+	genLRUStore(c, st) // the same service over a MemoryStore of 1..6 keys (c16_lru.go): case kind KTPLRU
 }
